@@ -362,6 +362,29 @@ theorem ti_full_false_untyped_assignment : ¬ TISoundFull := by
   refine stale_counterexample ifexpN (by decide) ?_
   exact .assign (v := .str "a") (.opaq (by rfl)) (.cons .name .nil) (Agree.refl _ _)
 
+/-- The statement with calls that may rebind the names in `W`, still without the taint hypothesis. -/
+def TISoundFullW : Prop :=
+  ∀ (R : Resolver) (sem : Sem) (env : FnEnv) (W : List String) (G : Graph) (reach : List Nat) (ins outs : NMap)
+    (σ₀ σ : State) (i : Nat) (x : String) (T : TySet) (v : Val),
+    IsTIFix R env G reach [] ins outs → Truthful R sem env → InitOk R env [] σ₀ → Exec sem env W G σ₀ i σ →
+    (ins.get i).get x = some T → σ x = some v → InSet v T
+
+open CEx in
+/-- Known finding `retyped_by_local_call_side_effect`: `x = 1; g(); return x` where `g` rebinds the nonlocal `x`
+to a `str` — the call node's transfer function is the identity, so `x ↦ {int}` survives. -/
+theorem ti_full_false_local_call_side_effect : ¬ TISoundFullW := by
+  intro h
+  have hstep : Step sem0 env0 ["x"] callN s1 (s1.set "x" (.str "a")) := by
+    refine .plain (by rfl) ?_
+    intro y hy
+    have : y ≠ "x" := fun h => hy (by simp [h])
+    simp [State.set, this]
+  have hex : Exec sem0 env0 ["x"] (graphOf callN) emp 4 (s1.set "x" (.str "a")) :=
+    .step (exec_to_mid_W ["x"] callN) (n := nMid callN) (by rfl) hstep (by simp [nMid])
+  have := h R0 sem0 env0 ["x"] (graphOf callN) reachC insC outsC emp (s1.set "x" (.str "a")) 4 "x" [.int] (.str "a")
+    (isTIFix_sound (by decide)) truthful0 (init0 []) hex (by decide) (by simp [State.set])
+  exact str_not_int this
+
 open CEx in
 /-- In each of these programs the theorem's hypothesis fails exactly as the finding class says: the empty taint
 set is not closed, `["x"]` is. -/
